@@ -81,14 +81,14 @@ def runSection (r : Report) (s : Section) : Report := Id.run do
   let viol :=
     if mode = "sf" then sfViolations h
     else if mode = "lc" then lcViolations h
-    else if mode = "rm" then rmViolations inj h
+    else if mode = "rm" then rmViolations (kvStr s.cfg "via" "" = "collection.Cache.Take") inj h
     else [(0, s!"unknown mode {mode}")]
   if mode ≠ "sf" && mode ≠ "lc" && mode ≠ "rm" then r := r.mismatch s.idx 0 "mode" mode
   for (ln, msg) in viol do
     r := r.violation s.idx ln msg
   -- the history must be a visible trace of the Lean model
   if viol.isEmpty then
-    match Explain.explain mode inj h with
+    match Explain.explain mode (kvStr s.cfg "via" "") inj h with
     | .ok (steps, tags) =>
       r := r.addCover s!"{mode}-explained" 1 |>.addCover s!"{mode}-model-steps" steps
       for t in tags do r := r.addCover t
@@ -117,6 +117,9 @@ def runSection (r : Report) (s : Section) : Report := Id.run do
       if o.ran && !o.serr then r := r.addCover s!"{via}-loaded"
       if o.ran && o.serr then r := r.addCover s!"{via}-load-failed"
       if !o.ran && o.err.isSome then r := r.addCover s!"{via}-joiner-got-leaders-error"
+      if o.ran && o.spanic then r := r.addCover s!"{via}-load-panicked"
+      if !o.ran && o.panicked then r := r.addCover s!"{via}-joiner-of-panicked-load-panics"
+      if !o.ran && !o.panicked && o.val.isNone && o.err.isNone then r := r.addCover s!"{via}-joiner-of-panicked-load-got-nil"
       if !o.ran && o.val.isSome then
         if h.any (fun l => some l.id = o.val && l.inv < o.ret && o.inv < l.ret && o.inv < l.fe.getD 0) then
           r := r.addCover s!"{via}-joiner-got-leaders-value"
